@@ -61,6 +61,38 @@ class AsyncMap(Mapping):  # type: ignore[type-arg]
         return "AsyncMap"
 
 
+class CountingMap(AsyncMap):
+    """A drop that is NOT pure: the k-th read of an integer property returns value + k - 1.
+
+    Sync and async renders agree on such data exactly when they evaluate every expression the
+    same number of times, in the same order (a queue, a one-shot token, a counter are real examples)."""
+
+    def __init__(self, data: dict[str, Any], log: list[Any] | None = None) -> None:
+        super().__init__(data, log)
+        self._reads: dict[Any, int] = {}
+
+    def _value(self, key: Any) -> Any:
+        v = self._data[key]
+        if isinstance(v, int) and not isinstance(v, bool):
+            k = self._reads.get(key, 0)
+            self._reads[key] = k + 1
+            return v + k
+        return v
+
+    def __getitem__(self, key: Any) -> Any:
+        return self._value(key)
+
+    async def __getitem_async__(self, key: Any) -> Any:
+        await Yield()
+        return self._value(key)
+
+    def __str__(self) -> str:
+        return "CountingMap"
+
+    def __repr__(self) -> str:
+        return "CountingMap"
+
+
 class AsyncSeq(Sequence):  # type: ignore[type-arg]
     def __init__(self, data: list[Any]) -> None:
         self._data = data
@@ -79,15 +111,19 @@ class AsyncSeq(Sequence):  # type: ignore[type-arg]
         return "AsyncSeq"
 
 
-def wrap_async(value: Any, mask: int, depth: int = 0) -> Any:
-    """Wrap dicts (and some lists) of `value` in async drops; `mask` bits choose which."""
+def wrap_async(value: Any, mask: int, depth: int = 0, counting: bool = False) -> Any:
+    """Wrap dicts (and some lists) of `value` in async drops; `mask` bits choose which.
+
+    With `counting`, every nested mapping becomes a CountingMap."""
     if isinstance(value, dict):
-        inner = {k: wrap_async(v, mask >> 1, depth + 1) for k, v in value.items()}
+        inner = {k: wrap_async(v, mask >> 1, depth + 1, counting) for k, v in value.items()}
+        if counting and depth > 0:
+            return CountingMap(inner)
         if mask & 1:
             return AsyncMap(inner)
         return inner
     if isinstance(value, list):
-        inner_l = [wrap_async(v, mask >> 1, depth + 1) for v in value]
+        inner_l = [wrap_async(v, mask >> 1, depth + 1, counting) for v in value]
         if mask & 2 and depth < 2:
             return AsyncSeq(inner_l)
         return inner_l
